@@ -152,6 +152,7 @@ type xfOutcome struct {
 }
 
 type xfPeerHold struct {
+	slot int // the worker's in-flight slot (see xfInflight)
 	p   *xfPeer
 	cfg xfCfg
 	n   int // bytes moved through the held connection (its raw log grows with them)
@@ -191,6 +192,11 @@ func (xfSrcErr) Error() string { return "source failed (injected)" }
 // hold (optional) keeps one scripted peer + client alive across the cases of a job: a fresh
 // peers.NewClient per case costs a 2 MB request channel.
 func xfExec(cs xfCase, real *xfReal, srcDir string, hold *xfPeerHold) (out xfOutcome) {
+	if hold != nil {
+		xfInflight(hold.slot, cs)
+	} else {
+		xfInflight(0, cs)
+	}
 	initial := xfFilePat(cs.FileLen)
 	var cli *sftp.Client
 	var peer *xfPeer
